@@ -44,6 +44,8 @@ def ends_with_control_word(it, r):
 
 def protect(it, scheme, r):
     """documented protection schemes (spec)"""
+    if not isinstance(scheme, str) and scheme is not None:
+        return it.call(scheme, [r], {})          # a callable given on the rule: its result for this replacement text
     if scheme == 'none':
         return r
     if scheme == 'braces-all':
@@ -85,8 +87,20 @@ def mk_encoder(it, scheme=None, fields=None):
 
 def mk_rule(it, rule_value=None, scheme='?'):
     if scheme == '?':
-        k = it.ctx.choose(len(SCHEMES) + 1, 'rule protection scheme')
-        scheme = None if k == 0 else SCHEMES[k - 1]
+        k = it.ctx.choose(len(SCHEMES) + 2, 'rule protection scheme')
+        if k == len(SCHEMES) + 1:
+            # the rule's own protection may also be a callable: an unknown function of the replacement text
+            memo = {}
+
+            def own_protection(it2, a, kw):
+                key = V.str_key(a[0]) if V.is_str(a[0]) else repr(a[0])
+                if key not in memo:
+                    memo[key] = it2.fresh_str('own_protection(repl)')
+                return memo[key]
+            from pyvc.values import Builtin
+            scheme = Builtin('rule.replacement_latex_protection', own_protection)
+        else:
+            scheme = None if k == 0 else SCHEMES[k - 1]
     it.ctx.ghost['rule_scheme'] = scheme
     return new_obj(it, RULE, {'rule_type': 'x', 'rule': rule_value, 'replacement_latex_protection': scheme}, tag='rule')
 
@@ -588,6 +602,31 @@ def register(reg):
         modifies=[]))
     units['_do_partial_latex_encode_step'] = FunctionUnit(c_part)
 
+
+    # the constructor: an explicitly EMPTY keep set / rule list is kept as given (only None means "the default")
+    def lemma_partial_init(it):
+        ctx = it.ctx
+        PCls = resolve_class(it, PART)
+        for keep_given, rules_given in ((False, False), (True, True), (True, False), (False, True)):
+            kw = {'unknown_char_warning': False}
+            if keep_given:
+                kw['keep_latex_chars'] = ''
+            if rules_given:
+                kw['conversion_rules'] = PyList([])
+            enc = it.instantiate(PCls, [], kw)
+            tag = 'keep_latex_chars=%s, conversion_rules=%s' % ("''" if keep_given else 'default', '[]' if rules_given else 'default')
+            k = enc.fields.get('keep_latex_chars')
+            ctx.prove('PartialLatexToLatexEncoder(%s): the keep characters are the given ones' % tag,
+                      (k == '') if keep_given else (k == '\\${}^_'), 'post', src='keep_latex_chars = %r' % (k,))
+            cr = enc.fields.get('conversion_rules')
+            items = list(cr.items) if isinstance(cr, PyList) and cr.items is not None else None
+            ok = items is not None and len(items) >= 1 and isinstance(items[0], Obj) and \
+                items[0].fields.get('replacement_latex_protection') == 'none'
+            rest = items[1:] if items else None
+            ctx.prove('PartialLatexToLatexEncoder(%s): the rules are its own token-keeping rule followed by exactly the given rules' % tag,
+                      ok and (rest == [] if rules_given else rest == ['defaults']), 'post', src='rules after the first: %r' % (rest,))
+    units['PartialLatexToLatexEncoder.__init__'] = LemmaUnit('PartialLatexToLatexEncoder.__init__', lemma_partial_init,
+                                                             functions=[PART + '.__init__'])
 
     # ---- module-level cached helper: a cached encoder is interchangeable with a fresh one ---------------------------------------------
     HELPER = 'pylatexenc.latexencode.unicode_to_latex'
